@@ -236,6 +236,13 @@ class Piece:
         return self.resub('R3', r'for \((\w+), &(\w+)\) in ([\w\.]+)\.iter\(\)\.enumerate\(\) \{',
                           r'for \1 in 0..\3.len() { let \2 = \3[\1];')
 
+    def R39(self):
+        """`for (i, x) in (0..N).step_by(S).enumerate() {` -> `for i in 0..step_count(N, S) { let x = i * S;`: std's StepBy<Range<usize>> is set up with
+        ceil(N / S) remaining steps and yields 0, S, 2S, ... (library/core/src/iter/adapters/step_by.rs, SpecRangeSetup); step_count is a VERIFIED helper,
+        the multiplication becomes an overflow obligation."""
+        return self.resub('R39', r'for \((\w+), (\w+)\) in \(0\.\.([^()\n]+?)\)\.step_by\(([^()\n]+?)\)\.enumerate\(\) \{',
+                          r'for \1 in 0..step_count(\3, \4) { let \2 = \1 * (\4);')
+
     def R3b(self):
         """`for (i, x) in E.iter().enumerate() {` (x bound by reference) -> `for i in 0..E.len() { let x = &E[i];`"""
         return self.resub('R3', r'for \((\w+), (\w+)\) in ([\w\.]+)\.iter\(\)\.enumerate\(\) \{',
